@@ -117,7 +117,8 @@ def r_split_order(rep, prog):
     good = (a[1][0] == "agg" and T.const_val(a[1][2][0]) == 0 and T.const_val(a[2]) == order and T.const_val(a[3]) == 0)
     rep.check(good, rule, "partial_put_huge|fill-args", "fills the whole bitfield: toggle(FrameId(0), ORDER, false)",
               "the fill is toggle(%s, %s, %s)" % (T.show(a[1]), T.show(a[2]), T.show(a[3])), tt["span"])
-    rep.check(T.mentions_call(a[0], "llfree::FrameId::as_huge") and T.mentions_param(a[0], "frame"), rule, "partial_put_huge|fill-bitfield",
+    sel_ok = T.canon(a[0]) == ("call", "llfree::lower::Lower::bitfield", (("p", "self"), ("call", "llfree::FrameId::as_huge", (("p", "frame"),))))
+    rep.check(sel_ok, rule, "partial_put_huge|fill-bitfield",
               "of the frame's huge frame", "fills bitfield %s" % T.show(a[0]), tt["span"])
     states = ps.states_at(cb)
     bad = [e for _, e in states if e.get(("c", tb)) != 0]
@@ -219,6 +220,8 @@ def run(rep, programs):
     c01.r_blind_writes(rep, prog)
     r_wait_panic(rep, prog)
     r_spin_wait(rep, prog)
+    from props import c09
+    c09.r_reserved_class_stable(rep, prog)   # a free by another thread must not change the class under a live reservation
     # counters stay consistent with the bitfields (otherwise the counter assertions in Tree::put / unreserve fire)
     from props import c04, c15
     c04.r_balance(rep, prog)
